@@ -84,6 +84,14 @@ func normMsg(s string) string {
 	return s
 }
 
+func firstWords(s string, n int) string {
+	f := strings.Fields(s)
+	if len(f) > n {
+		f = f[:n]
+	}
+	return strings.Join(f, " ")
+}
+
 // judgeErrors applies the "non-empty list of errors that name the offending expression" clause.
 //
 // Rule (deliberately lenient, see run.Assume): the list must render to a non-empty text; each
@@ -114,7 +122,7 @@ func judgeErrors(res *runner.Result) []finding {
 			case t == "":
 				out = append(out, finding{"rejected-with-empty-message:dsl", "one error of the list has no text"})
 			case e.File == "" && !strings.Contains(t, " in ") && !strings.Contains(t, "(top level)"):
-				out = append(out, finding{"unlocated-error:" + normMsg(t), fmt.Sprintf("error %q has neither a file:line location nor an expression", t)})
+				out = append(out, finding{"unlocated-error:" + firstWords(normMsg(t), 3), fmt.Sprintf("error %q has neither a file:line location nor an expression", t)})
 			}
 		default:
 			// plain error returned by RunDSL itself (dependency cycles): non-empty text is all that is demanded
@@ -131,7 +139,7 @@ func judgeResult(res *runner.Result, repo string) []finding {
 		if top == "" {
 			top = "-"
 		}
-		key, site := chaos.PanicKey(res.Stack, repo, res.Panic, top)
+		key, site := chaos.PanicKey(res.Stack, repo, res.Panic)
 		what := fmt.Sprintf("panic %q escaped (phase %s) at %s; innermost program call: %s", chaos.HeadS(res.Panic, 200), res.Phase, site, top)
 		return []finding{{key, what}}
 	case "rejected":
@@ -142,12 +150,12 @@ func judgeResult(res *runner.Result, repo string) []finding {
 
 // judgeDeath turns a dead child (alone run) into a finding.
 func judgeDeath(d *chaos.Death, repo string) finding {
-	fn, dslFn := chaos.FirstRepoFrame(d.Stderr, repo)
+	fn, dslFn, innermost := chaos.RepoFrames(d.Stderr, repo)
 	if d.Kind == "timeout" {
 		if dslFn == "" {
-			dslFn = fn
+			dslFn = innermost
 		}
-		return finding{"nontermination:" + dslFn, fmt.Sprintf("program still running after %.0f s alone (innermost goa frame %s)", d.Bound.Seconds(), fn)}
+		return finding{"nontermination:" + dslFn, fmt.Sprintf("program still running after %.0f s alone (innermost goa frame %s)", d.Bound.Seconds(), innermost)}
 	}
 	switch {
 	case strings.Contains(d.Stderr, "stack overflow") || strings.Contains(d.Stderr, "goroutine stack exceeds"):
@@ -264,7 +272,7 @@ func confirmAlone(run *vc.Run, h *chaos.Harness, repo string, p *prog.Program, b
 func runChaos(run *vc.Run, h *chaos.Harness, g *chaos.Gen, repo string, n int) {
 	const batchSize = 250
 	h.GenEvery = 4
-	batchBound := 120 * time.Second
+	batchBound := 30 * time.Second
 	type job struct{ lo, hi int }
 	jobs := make(chan job, 1024)
 	var wg sync.WaitGroup
@@ -359,7 +367,7 @@ func runChaos(run *vc.Run, h *chaos.Harness, g *chaos.Gen, repo string, n int) {
 				for _, f := range afs {
 					noteFirst(f.Key, p)
 					if strings.HasPrefix(f.Key, "panic:") {
-						run.Seen("panic_sites", strings.TrimPrefix(f.Key[:strings.LastIndex(f.Key, ":")], "panic:"))
+						run.Seen("panic_sites", f.Key)
 					}
 					if strings.HasPrefix(f.Key, "fatal:") {
 						run.Seen("fatal_sites", f.Key)
